@@ -147,27 +147,58 @@ func (c *c51CC) wait(routes, cfg []int, bound time.Duration) []int {
 	}
 }
 
-func c51Route(set []int) *v3routepb.RouteConfiguration {
+func c51WC(names ...string) *v3routepb.RouteAction_WeightedClusters {
+	var cw []*v3routepb.WeightedCluster_ClusterWeight
+	for _, n := range names {
+		cw = append(cw, &v3routepb.WeightedCluster_ClusterWeight{Name: n, Weight: &wrapperspb.UInt32Value{Value: 50}})
+	}
+	return &v3routepb.RouteAction_WeightedClusters{WeightedClusters: &v3routepb.WeightedCluster{Clusters: cw}}
+}
+
+// c51Route builds the route configuration for the multiset m of entries (m[n-1] entries name
+// cluster cN).  Every entry of cluster cN is reachable through a prefix /cN.../ that leads to cN
+// only.  Two entries: variant 0 = two routes, variant 1 = one route whose weighted-cluster list
+// names cN twice.  Returns the expected entry list (sorted, with repetitions).
+func c51Route(m []int, variant int) (*v3routepb.RouteConfiguration, []int) {
 	var routes []*v3routepb.Route
-	for _, n := range set {
+	entries := []int{}
+	add := func(prefix string, names ...string) {
 		routes = append(routes, &v3routepb.Route{
-			Match: &v3routepb.RouteMatch{PathSpecifier: &v3routepb.RouteMatch_Prefix{Prefix: fmt.Sprintf("/c%d/", n)}},
-			Action: &v3routepb.Route_Route{Route: &v3routepb.RouteAction{
-				ClusterSpecifier: &v3routepb.RouteAction_WeightedClusters{WeightedClusters: &v3routepb.WeightedCluster{
-					Clusters: []*v3routepb.WeightedCluster_ClusterWeight{{Name: fmt.Sprintf("c%d", n), Weight: &wrapperspb.UInt32Value{Value: 100}}},
-				}},
-			}},
+			Match:  &v3routepb.RouteMatch{PathSpecifier: &v3routepb.RouteMatch_Prefix{Prefix: prefix}},
+			Action: &v3routepb.Route_Route{Route: &v3routepb.RouteAction{ClusterSpecifier: c51WC(names...)}},
 		})
 	}
+	for i, k := range m {
+		n := i + 1
+		name := fmt.Sprintf("c%d", n)
+		for j := 0; j < k; j++ {
+			entries = append(entries, n)
+		}
+		switch {
+		case k == 1:
+			add(fmt.Sprintf("/c%d/", n), name)
+		case k == 2 && (variant+n)%2 == 0:
+			add(fmt.Sprintf("/c%d/", n), name)
+			add(fmt.Sprintf("/c%db/", n), name)
+		case k == 2:
+			add(fmt.Sprintf("/c%d/", n), name, name)
+		case k >= 3:
+			add(fmt.Sprintf("/c%d/", n), name, name)
+			for j := 2; j < k; j++ {
+				add(fmt.Sprintf("/c%dx%d/", n, j), name)
+			}
+		}
+	}
+	sort.Ints(entries)
 	return &v3routepb.RouteConfiguration{
 		Name:         defaultTestRouteConfigName,
 		VirtualHosts: []*v3routepb.VirtualHost{{Domains: []string{defaultTestServiceName}, Routes: routes}},
-	}
+	}, entries
 }
 
 type c51Step struct {
 	A   string `json:"a"`
-	S   []int  `json:"s"`
+	M   []int  `json:"m"` // route step: number of route entries naming c1, c2, c3
 	I   int    `json:"i"`
 	C   int    `json:"c"`
 	Exp []int  `json:"exp"` // configuration the specification expects after the step (wait condition only)
@@ -210,8 +241,8 @@ func c51Run(t *testing.T, mgmt *e2e.ManagementServer, steps []c51Step, id int, t
 		sort.Ints(st.Exp)
 		switch st.A {
 		case "route":
-			sort.Ints(st.S)
-			configureResources(ctx, t, mgmt, nodeID, listeners, []*v3routepb.RouteConfiguration{c51Route(st.S)}, clusters, endpoints)
+			rc, entries := c51Route(st.M, id)
+			configureResources(ctx, t, mgmt, nodeID, listeners, []*v3routepb.RouteConfiguration{rc}, clusters, endpoints)
 			if r == nil {
 				target := resolver.Target{URL: *testutils.MustParseURL("xds:///" + defaultTestServiceName)}
 				r, err = builder.Build(target, cc, resolver.BuildOptions{Authority: url.PathEscape(target.Endpoint())})
@@ -220,13 +251,21 @@ func c51Run(t *testing.T, mgmt *e2e.ManagementServer, steps []c51Step, id int, t
 				}
 				defer r.Close()
 			}
-			cfg := cc.wait(st.S, st.Exp, bound)
-			tr.Emit(map[string]any{"ev": "route", "s": st.S, "cfg": cfg})
+			cfg := cc.wait(entries, st.Exp, bound)
+			tr.Emit(map[string]any{"ev": "route", "m": st.M, "cfg": cfg})
 		case "select":
 			cc.mu.Lock()
 			cs := iresolver.GetConfigSelector(cc.state)
 			cc.mu.Unlock()
-			res, err := cs.SelectConfig(iresolver.RPCInfo{Context: ctx, Method: fmt.Sprintf("/c%d/method", st.C)})
+			// even RPC numbers try the cluster's second route entry first (it exists in some variants)
+			paths := []string{fmt.Sprintf("/c%d/method", st.C), fmt.Sprintf("/c%db/method", st.C)}
+			if st.I%2 == 0 {
+				paths[0], paths[1] = paths[1], paths[0]
+			}
+			res, err := cs.SelectConfig(iresolver.RPCInfo{Context: ctx, Method: paths[0]})
+			if err != nil {
+				res, err = cs.SelectConfig(iresolver.RPCInfo{Context: ctx, Method: paths[1]})
+			}
 			if err == nil {
 				rpcs[st.I] = res
 			}
